@@ -36,6 +36,14 @@ impl Model {
     pub fn decode(&mut self, src: &mut &[u8], range_coder: &mut RangeCoder) -> io::Result<u8> {
         let freq = range_coder.range_get_freq(self.total_freq);
 
+        // The frequencies add up to `total_freq`, i.e., a greater value has no symbol.
+        if freq >= self.total_freq {
+            return Err(io::Error::new(
+                io::ErrorKind::InvalidData,
+                "invalid cumulative frequency",
+            ));
+        }
+
         let mut acc = 0;
         let mut x = 0;
 
@@ -107,5 +115,29 @@ impl Model {
         }
 
         self.total_freq = total_freq;
+    }
+}
+
+#[cfg(test)]
+mod tests {
+    use super::*;
+
+    #[test]
+    fn test_decode_with_invalid_cumulative_frequency() -> io::Result<()> {
+        let src = [
+            0x00, // discarded
+            0xff, 0xff, 0xff, 0xff, // code = 2^32 - 1
+        ];
+
+        let mut src = &src[..];
+        let mut range_coder = RangeCoder::new(&mut src)?;
+        let mut model = Model::new(const { NonZero::new(2).unwrap() });
+
+        assert!(matches!(
+            model.decode(&mut src, &mut range_coder),
+            Err(e) if e.kind() == io::ErrorKind::InvalidData
+        ));
+
+        Ok(())
     }
 }
